@@ -1,32 +1,17 @@
 import XvcRepo.TmpName
-/-! Line-protocol driver for the temporary-name model (lib/c17.py, stream `tmp-name`).
-    `tmpname <hex of the file name bytes>` answers the hex of `tmpName`; `istmp <hex>` answers 0/1. -/
+/-! Line-protocol driver for the temporary-entry model (lib/c17.py, stream `tmp-name`).
+    `tmpentry <pid> <k>` answers the spelling of the temporary entry of the `k`-th copy of process `pid` below
+    `.xvc/tmp/`; `alloc <pid> <k0> <n>` answers the entries a command with `n` copies uses, in counter order. -/
 open XvcRepo.Tmp
-
-def hexVal (c : Char) : Option Nat :=
-  if '0' ≤ c ∧ c ≤ '9' then some (c.toNat - '0'.toNat)
-  else if 'a' ≤ c ∧ c ≤ 'f' then some (c.toNat - 'a'.toNat + 10)
-  else none
-
-def unhex : List Char → Option (List Nat)
-  | [] => some []
-  | a :: b :: r => do
-    let x ← hexVal a; let y ← hexVal b; let t ← unhex r
-    pure ((16 * x + y) :: t)
-  | _ => none
-
-def hexDigit (n : Nat) : Char := if n < 10 then Char.ofNat (48 + n) else Char.ofNat (87 + n)
-def hex (l : List Nat) : String := String.ofList (l.flatMap (fun b => [hexDigit (b / 16), hexDigit (b % 16)]))
 
 def answer (line : String) : String :=
   match line.trimAscii.toString.splitOn " " with
-  | ["tmpname", h] => match unhex h.toList with
-    | some n => hex (tmpName n)
-    | none => "bad-op"
-  | ["istmp", h] => match unhex h.toList with
-    | some n => if isTmpB n then "1" else "0"
-    | none => "bad-op"
-  | ["tmpname"] => hex (tmpName [])
+  | ["tmpentry", p, k] => match p.toNat?, k.toNat? with
+    | some p, some k => render p k
+    | _, _ => "bad-op"
+  | ["alloc", p, k0, n] => match p.toNat?, k0.toNat?, n.toNat? with
+    | some p, some k0, some n => " ".intercalate ((List.range n).map (fun i => render p (k0 + i)))
+    | _, _, _ => "bad-op"
   | _ => "bad-op"
 
 partial def loop (h : IO.FS.Stream) (out : IO.FS.Stream) : IO Unit := do
